@@ -116,6 +116,41 @@ func (c *Case) Exec(t *eng.T) {
 		t.Fail(c.Key+":output", "%s [%s] renders %q; the reference interpreter renders %q", c.Label, c.ID(), out.S, string(c.Want))
 		return
 	}
+	if len(c.Globals) > 0 {
+		// the set's globals are visible whichever way the set is asked to render the program
+		src := c.Files["/main"]
+		routes := []struct {
+			name string
+			f    func() (string, error)
+		}{
+			{"RenderTemplateString", func() (string, error) { return set.RenderTemplateString(src, goCtx(c.Ctx)) }},
+			{"RenderTemplateBytes", func() (string, error) { return set.RenderTemplateBytes([]byte(src), goCtx(c.Ctx)) }},
+			{"RenderTemplateFile", func() (string, error) { return set.RenderTemplateFile("/main", goCtx(c.Ctx)) }},
+			{"FromBytes", func() (string, error) {
+				t2, err := set.FromBytes([]byte(src))
+				if err != nil {
+					return "", err
+				}
+				return t2.Execute(goCtx(c.Ctx))
+			}},
+			{"FromCache", func() (string, error) {
+				t2, err := set.FromCache("/main")
+				if err != nil {
+					return "", err
+				}
+				return t2.Execute(goCtx(c.Ctx))
+			}},
+		}
+		for _, rt := range routes {
+			var got string
+			var err error
+			site, msg, pan := eng.Protect(func() { got, err = rt.f() })
+			if pan || err != nil || got != out.S {
+				t.Fail(c.Key+":route:"+rt.name, "%s [%s]: %s gives %q (error %v, panic %s %s); compiling with FromFile and executing gives %q", c.Label, c.ID(), rt.name, got, err, site, msg, out.S)
+				return
+			}
+		}
+	}
 	if c.Ctx2 != nil {
 		o2 := px.Exec(tpl, goCtx(c.Ctx2))
 		switch {
@@ -145,7 +180,7 @@ func Vary(ctx map[string]ref.V) map[string]ref.V {
 func vary(v ref.V) ref.V {
 	switch v.K {
 	case ref.KStr:
-		return ref.StrV(v.S + "'2")
+		return ref.StrVia(v.S+"'2", v.Carrier)
 	case ref.KInt:
 		return ref.IntV(v.I + 3)
 	case ref.KFloat:
